@@ -260,6 +260,16 @@ func (c *Connector) UpdateMailboxName(_ context.Context, _ connector.IMAPStateWr
 	}
 
 	if mb, ok := c.Mailboxes[id]; ok {
+		// A remote with hierarchical names carries the inferiors along (gluon renames them locally
+		// without telling the connector about each).
+		old := mb.Name
+
+		for _, o := range c.Mailboxes {
+			if len(o.Name) > len(old) && strings.Join(o.Name[:len(old)], "\x00") == strings.Join(old, "\x00") {
+				o.Name = append(append([]string{}, newName...), o.Name[len(old):]...)
+			}
+		}
+
 		mb.Name = append([]string{}, newName...)
 	}
 
@@ -724,5 +734,21 @@ func (c *Connector) RemoteChangeMessageID(old, new imap.MessageID) {
 		delete(c.Messages, old)
 		m.ID = new
 		c.Messages[new] = m
+	}
+}
+
+// SnapshotMailboxes / RestoreMailboxes let a harness undo what the remote was told by a command
+// that the server then refused (gluon calls the connector before its own transaction commits).
+func (c *Connector) SnapshotMailboxes() map[imap.MailboxID][]string {
+	return c.MailboxNames()
+}
+
+func (c *Connector) RestoreMailboxes(snap map[imap.MailboxID][]string) {
+	c.mu.Lock()
+	defer c.mu.Unlock()
+
+	c.Mailboxes = map[imap.MailboxID]*Mbox{}
+	for id, name := range snap {
+		c.Mailboxes[id] = &Mbox{ID: id, Name: append([]string{}, name...)}
 	}
 }
